@@ -70,6 +70,7 @@ type shimBackend struct {
 	mu        sync.Mutex
 	conns     map[string]*shimBConn
 	shakes    map[string][]shimShake // every handshake request received, per token
+	holds     map[string]*shimHold   // rendezvous groups of held handshakes
 	seen      int64                  // upgrades served
 	redirects int64                  // handshakes answered with a redirect
 }
@@ -84,7 +85,7 @@ func newShimBackend() *shimBackend {
 	if err != nil {
 		panic(err)
 	}
-	b := &shimBackend{l: l, addr: l.Addr().String(), conns: map[string]*shimBConn{}, shakes: map[string][]shimShake{}}
+	b := &shimBackend{l: l, addr: l.Addr().String(), conns: map[string]*shimBConn{}, shakes: map[string][]shimShake{}, holds: map[string]*shimHold{}}
 	srv := &http.Server{Handler: http.HandlerFunc(b.serve)}
 	go srv.Serve(l)
 	return b
@@ -102,6 +103,9 @@ func (b *shimBackend) serve(w http.ResponseWriter, r *http.Request) {
 			w.WriteHeader(status)
 			return
 		}
+	}
+	if spec := r.Header.Get("X-Verif-Hold"); spec != "" {
+		b.hold(spec) // "<group>;<n>": no upgrade is answered before n handshakes of the group have arrived
 	}
 	token := r.Header.Get("X-Verif-Conn")
 	b.mu.Lock()
@@ -142,6 +146,23 @@ func (b *shimBackend) serve(w http.ResponseWriter, r *http.Request) {
 	if ms, _ := strconv.Atoi(r.Header.Get("X-Verif-Noread")); ms > 0 {
 		c.pushOnly(time.Duration(ms) * time.Millisecond)
 		return
+	}
+	if us, _ := strconv.Atoi(r.Header.Get("X-Verif-Ping")); us > 0 {
+		// keep-alive pings (legal at any time) every us microseconds for as long as the connection lives
+		go func() {
+			for i := 0; ; i++ {
+				select {
+				case <-c.closed:
+					return
+				default:
+				}
+				if ws.WriteControl(websocket.PingMessage, []byte(fmt.Sprintf("ping %d", i)), time.Now().Add(5*time.Second)) != nil {
+					return
+				}
+				atomic.AddInt64(&c.pushed, 1)
+				time.Sleep(time.Duration(us) * time.Microsecond)
+			}
+		}()
 	}
 	if ms, _ := strconv.Atoi(r.Header.Get("X-Verif-Pause")); ms > 0 {
 		// a backend that is busy for a while: it does not read (the agent's writer parks in its TCP
@@ -300,6 +321,34 @@ func (c *shimBConn) pushOnly(period time.Duration) {
 			return
 		}
 		time.Sleep(period)
+	}
+}
+
+type shimHold struct {
+	n   int
+	all chan struct{}
+}
+
+// hold parks a handshake until want handshakes of the same group have
+// arrived (at most 5 s), so that the opens they belong to overlap for sure.
+func (b *shimBackend) hold(spec string) {
+	p := strings.SplitN(spec, ";", 2)
+	want, _ := strconv.Atoi(p[len(p)-1])
+	b.mu.Lock()
+	h := b.holds[p[0]]
+	if h == nil {
+		h = &shimHold{all: make(chan struct{})}
+		b.holds[p[0]] = h
+	}
+	h.n++
+	if h.n == want {
+		close(h.all)
+		delete(b.holds, p[0])
+	}
+	b.mu.Unlock()
+	select {
+	case <-h.all:
+	case <-time.After(5 * time.Second):
 	}
 }
 
